@@ -74,6 +74,7 @@ var (
 	verifTypWriter   = reflect.TypeOf((*io.Writer)(nil)).Elem()
 	verifTypContext  = reflect.TypeOf((*context.Context)(nil)).Elem()
 	verifTypDone     = reflect.TypeOf((chan struct{})(nil))
+	verifPkgPath     = reflect.TypeOf(Runner{}).PkgPath()
 )
 
 func verifPrintNode(n syntax.Node) string {
@@ -203,9 +204,15 @@ func verifCanon(v reflect.Value, depth int, top bool) string {
 				pending = true
 			}
 		}
+		// Of structs of other packages only the exported fields are state;
+		// the rest are their private caches (e.g. expand.Config's buffers).
+		foreign := t.PkgPath() != verifPkgPath
 		var sb strings.Builder
 		sb.WriteString("{")
 		for i := range v.NumField() {
+			if foreign && !t.Field(i).IsExported() {
+				continue
+			}
 			f := verifField(v, i)
 			fmt.Fprintf(&sb, "%s:", t.Field(i).Name)
 			if pending && f.Kind() == reflect.Pointer {
